@@ -580,6 +580,41 @@ def discharge_auto(ctx, site):
                     return False
                 if all(guarded_at(db_) for _, db_ in live):
                     return "A2", "every Some/Ok alternative of the indexed value is built under len(base) > %d" % iv_
+        # base[i..] / base[..i] with i a counter that starts at 0 and is only ever incremented by 1
+        # under the guard i < len(base): by induction i <= len(base)
+        if ix is not None and is_agg(ix) and ix[1].split("::")[-1] in ("RangeFrom", "RangeTo") and fa.blocks[bb].term["k"] == "call" and len(fa.blocks[bb].term["args"]) > 1:
+            p_ = op_place(fa.blocks[bb].term["args"][1])
+            bound_op = None
+            for _ in range(6):
+                if p_ is None or p_["p"]:
+                    break
+                ds_ = [d for d in fa.body.defs.get(p_["l"], []) if not d[3]["p"]]
+                if len(ds_) != 1 or ds_[0][0] != "assign":
+                    break
+                rv_ = ds_[0][4]
+                if rv_["k"] == "agg" and rv_.get("ops"):
+                    bound_op = rv_["ops"][0]
+                    break
+                if rv_["k"] == "use":
+                    p_ = op_place(rv_["op"])
+                    continue
+                break
+            if bound_op is not None and op_place(bound_op) is not None:
+                alts = guarded_values(fa, bound_op, at=(ds_[0][1], ds_[0][2]))
+                ok_ = len(alts) >= 2
+                for t_, db_ in alts:
+                    u_ = unwrap_ovf(strip(t_))
+                    if ev(ctx, u_) == 0:
+                        continue
+                    if u_[0] == "bin" and u_[1] == "Add" and ev(ctx, u_[3]) == 1 and db_ is not None:
+                        prev = u_[2]
+                        lv = lambda q_: frozenset(x_[1] for x_ in subterms(q_) if isinstance(x_, tuple) and x_ and x_[0] == "cycle")
+                        # the guard and the increment speak about the same loop-carried variable (its terms differ by program point)
+                        if any(op == "Lt" and a is not None and b is not None and (same(a, prev) or (lv(a) and lv(a) == lv(prev))) and b[0] == "len" and same(b[1], base) for op, a, b in known_relations(ctx, fa, db_)):
+                            continue
+                    ok_ = False
+                if ok_:
+                    return "A2", "slice bound is a counter from 0 incremented only under counter < len(base): counter <= len(base)"
         # constant bounds inside a buffer of constant length
         if ix is not None and is_agg(ix) and ix[1].split("::")[-1] in ("RangeTo", "RangeFrom", "Range", "RangeInclusive", "RangeToInclusive"):
             L = const_len(ctx, fa, base)
@@ -754,6 +789,10 @@ def r4(ctx):
             for o, truth, sb in dominating_conditions(fs, idx[0]):
                 if o[0] == "bin" and o[1] == "Lt" and truth is True and "self.i" in term_str(o[2]) and "self.nodes" in term_str(o[3]):
                     good = True
+        if not idx:
+            # no indexing at all: the cursor is used through the checked accessor `self.nodes.get(self.i)`
+            gets = [s_ for s_, t_ in fs.calls() if (t_.get("callee") or "").endswith("::get") and "self.nodes" in term_str(fs.arg_origin(s_, 0)) and "self.i" in term_str(fs.arg_origin(s_, 1))]
+            good = bool(gets)
         ctx.check(P, rule, "NodeQueue::shift checks the cursor before indexing", good, "self.i >= self.nodes.len() => Err dominates self.nodes[self.i]", "self.nodes[self.i] is not guarded by the cursor check", key="C09|C09.R4|NodeQueue::shift|cursor check")
     fx = ctx.fn(NEXT_SLOT)
     if need(ctx, P, rule, NEXT_SLOT, fx):
